@@ -80,7 +80,7 @@ class GlobalPeaksBatchIndependence(_TwoRun):
     thorough_cases = cases + ("integral3:1:0", "integral2:1:1")
     bounded = ("the relational form of integral refinement is decided for a frame alone vs. as one of 2 samples, 1 channel, patch sizes 3 and 5 (thorough: 2); "
                "with 2 channels the 16 validity patterns x crop batches exceed the time budget and are not claimed",)
-    not_decided = ("CentroidCrop with return_crops=True (_generate_crops) and use_gt_centroids; CentroidCrop.forward(return_crops=False) is decided for bounded peak counts only (see CentroidCropPerSample)",
+    not_decided = ("CentroidCrop with use_gt_centroids; CentroidCrop.forward is decided for bounded peak counts only (see CentroidCropPerSample)",
                    "PAFScorer.predict batch glue (BottomUpInferenceModel._generate_cms_peaks / forward are decided under C03)",
                    "Predictor._predict_generator beyond the bounded consumer-loop contract shared with C13 (0..4 frames, batch size 1..3)",
                    "integral refinement in relational form beyond the bounded cases listed (2 channels, symbolic batch)",
@@ -319,13 +319,16 @@ class CentroidCropPerSample(Contract):
     no_crosscheck = True
     no_replay = True
     dims = ()
-    cases = tuple("%d-%d-%s" % (k0, k1, m) for k0 in range(3) for k1 in range(3) for m in ("None", "1", "2") if k0 + k1 > 0) + ("3-1-2", "0-3-1")
+    # "k0-k1-M": return_crops=False; "k0-k1-M-crops": return_crops=True (one dict of crops per frame with detections)
+    cases = (tuple("%d-%d-%s" % (k0, k1, m) for k0 in range(3) for k1 in range(3) for m in ("None", "1", "2") if k0 + k1 > 0) + ("3-1-2", "0-3-1")
+             + ("1-1-None-crops", "0-1-None-crops", "1-0-None-crops", "0-2-1-crops", "2-0-2-crops", "2-1-1-crops"))
     bounded = ("CentroidCrop.forward (return_crops=False): batch of 2 frames, 0..2 (3) centroids per frame, max_instances in {None,1,2}; peak detector abstracted to its C06 characterisation; "
                "coordinates, values, scales symbolic",)
-    not_decided = ("CentroidCrop with return_crops=True (_generate_crops: per-centroid crops carrying frame_idx / video_idx of their frame), use_gt_centroids, the no-detection branch of a whole batch",)
+    not_decided = ("CentroidCrop with use_gt_centroids, the no-detection branch of a whole batch, the crop pixels themselves (C04 decides generate_crops)",)
 
     def inputs(self, c, case):
-        k0, k1, m = case.split("-")
+        crops = case.endswith("-crops")
+        k0, k1, m = case.replace("-crops", "").split("-")
         ks = [int(k0), int(k1)]
         K = sum(ks)
         pts = c.tensor("points", [K, 2], FLOAT, nan_ok=False)
@@ -339,9 +342,13 @@ class CentroidCropPerSample(Contract):
         for i in range(K):
             for j in range(i + 1, K):
                 c.assume(V.b_not(V.f_eq(vr([i]), vr([j]))))
-        H, W = c.dim("H", lo=1), c.dim("W", lo=1)
+        H, W = c.dim("H", lo=2), c.dim("W", lo=2)     # (crops: domain of the kornia crop contract)
         # domain of resize_image: the scaled sides are at least one pixel
         c.assume(V.f_le(1.0, V.f_mul(T.cast_scalar(H, FLOAT), isc)), V.f_le(1.0, V.f_mul(T.cast_scalar(W, FLOAT), isc)))
+        if crops:
+            return dict(ks=ks, points=pts, values=vals, eff=eff, input_scale=isc, stride=c.int("output_stride", lo=1), max_instances=(None if m == "None" else int(m)),
+                        image=c.tensor("image", [2, 1, 1, H, W], FLOAT, nan_ok=False), crops=True,
+                        cms=c.tensor("cms", [2, 1, c.dim("Hc", lo=1), c.dim("Wc", lo=1)], FLOAT, nan_ok=False))
         return dict(ks=ks, points=pts, values=vals, eff=eff, input_scale=isc, stride=c.int("output_stride", lo=1), max_instances=(None if m == "None" else int(m)),
                     image=c.tensor("image", [2, 1, H, W], FLOAT, nan_ok=False),
                     cms=c.tensor("cms", [2, 1, c.dim("Hc", lo=1), c.dim("Wc", lo=1)], FLOAT, nan_ok=False))
@@ -353,16 +360,22 @@ class CentroidCropPerSample(Contract):
         interp.overrides = {"sleap_nn.inference.peak_finding.find_local_peaks": lambda *x, **k: (a["points"], a["values"], sample_inds, chan)}
         obj = Obj(cv)
         obj.attrs.update(torch_model=FixedNet(a["cms"]), peak_threshold=0.2, refinement=None, integral_patch_size=5, output_stride=a["stride"], return_confmaps=False,
-                         max_instances=a["max_instances"], return_crops=False, crop_hw=(8, 8), input_scale=a["input_scale"], precrop_resize=1.0, max_stride=1,
+                         max_instances=a["max_instances"], return_crops=bool(a.get("crops")), crop_hw=(4, 4), input_scale=a["input_scale"], precrop_resize=1.0, max_stride=1,
                          use_gt_centroids=False, anchor_ind=None)
         m, _ = cv.lookup("forward")
         inputs = {"image": a["image"], "eff_scale": a["eff"], "frame_idx": "frame_idx", "video_idx": "video_idx"}
+        if a.get("crops"):
+            H, W = a["image"].shape[-2], a["image"].shape[-1]
+            inputs.update(frame_idx=T.from_flat([2], [70, 71], INT), video_idx=T.from_flat([2], [5, 6], INT),
+                          orig_size=T.from_nested([[T.cast_scalar(H, FLOAT), T.cast_scalar(W, FLOAT)]] * 2, FLOAT))
         try:
             return interp.call(m, [obj, inputs], {})
         finally:
             interp.overrides = {}
 
-    def ensures(self, c, result, ks, points, values, eff, input_scale, stride, max_instances, image, cms):
+    def ensures(self, c, result, ks, points, values, eff, input_scale, stride, max_instances, image, cms, crops=False):
+        if crops:
+            return _centroid_crop_clauses(c, result, ks, points, values, eff, input_scale, stride, max_instances)
         if not isinstance(result, dict):
             return [("PL/returns-the-input-dict", False)]
         cen, cv_ = result.get("centroids"), result.get("centroid_vals")
@@ -394,3 +407,120 @@ class CentroidCropPerSample(Contract):
                                 for q in mine])
                 cl.append(("PL/frame%d/with-max_instances-the-kept-centroids-are-the-highest-scoring-ones" % b, top))
         return cl
+
+
+# ------------------------------------------------- channel independence (C07's own clause)
+def _pair_channels(c, name, S, CB, b, tail, lo=None):
+    """(A, B): A has one channel; channel b of B is A's channel, B's other channels arbitrary."""
+    A = c.tensor(name + "_A", [S, 1] + list(tail), FLOAT, nan_ok=False, lo=lo)
+    B0 = c.tensor(name + "_B", [S, CB] + list(tail), FLOAT, nan_ok=False, lo=lo)
+    ra, rb = A.reader(), B0.reader()
+
+    def fn(idx):
+        same = V.i_eq(idx[1], b)
+        if same is True:
+            return ra([idx[0], 0] + list(idx[2:]))
+        if same is False:
+            return rb(list(idx))
+        return V.f_ite(V.zbool(same), ra([idx[0], 0] + list(idx[2:])), rb(list(idx)))
+
+    return A, T.from_fn([S, CB] + list(tail), FLOAT, fn)
+
+
+@contract
+class GlobalPeaksChannelIndependence(_TwoRun):
+    """C07: 'one channel's result does not depend on the others' -- the same map as the only
+    channel and as channel b among CB channels gives the same point and value."""
+
+    target = PF + "find_global_peaks#channel-independence"
+    props = ("C07", "C12")
+    always_inline = (PF + "find_global_peaks", PF + "find_global_peaks_rough")
+    # "none": all counts symbolic; "integralP:b": one sample, the map alone vs. channel b of 2
+    cases = ("rough", "none", "integral5:0", "integral5:1", "integral3:1")
+    thorough_cases = cases + ("integral3:0", "integral2:1")
+    rand_ranges = {"S": (1, 2), "CB": (1, 3), "b": (0, 2), "H": (2, 5), "W": (2, 5), "cms_A": (0.0, 1.0), "cms_B": (0.0, 0.5), "threshold": (0.2, 0.9)}
+    dims = ("S", "CB", "H", "W")
+    dim_ranges = {"S": (1, 2), "CB": (1, 2), "H": (1, 2), "W": (1, 2)}
+    bounded = ("the relational form of integral refinement over channels is decided for one sample, the map alone vs. as one of 2 channels, patch sizes 3 and 5 (thorough: 2)",)
+
+    def inputs(self, c, case):
+        if case.startswith("integral"):
+            P, b = case[len("integral"):].split(":")
+            S, CB, b = 1, 2, int(b)
+            H, W = c.dim("H", lo=2), c.dim("W", lo=2)
+            A, B = _pair_channels(c, "cms", S, CB, b, [H, W], lo=0.0)
+            thr = c.real("threshold")
+            c.assume(V.f_lt(0.0, thr))
+            c.path.concretize_masks = True
+            return dict(cms_a=A, cms_b=B, b=b, threshold=thr, which="integral", patch=int(P))
+        S, CB, H, W = c.dim("S", lo=1), c.dim("CB", lo=1), c.dim("H", lo=1), c.dim("W", lo=1)
+        b = c.int("b", lo=0)
+        c.assume(V.i_lt(b, CB))
+        A, B = _pair_channels(c, "cms", S, CB, b, [H, W])
+        return dict(cms_a=A, cms_b=B, b=b, threshold=c.real("threshold"), which=case, patch=5)
+
+    def _kw(self, a):
+        if a["which"] == "rough":
+            return "find_global_peaks_rough", dict(threshold=a["threshold"])
+        return "find_global_peaks", dict(threshold=a["threshold"], refinement=("integral" if a["which"] == "integral" else None), integral_patch_size=a["patch"])
+
+    def run(self, interp, a):
+        name, kw = self._kw(a)
+        f = interp.resolve_dotted(PF + name)
+        self._rough = None
+        if a["which"] == "integral":
+            fr = interp.resolve_dotted(PF + "find_global_peaks_rough")
+            self._rough = (interp.call(fr, [a["cms_a"]], dict(threshold=a["threshold"])), interp.call(fr, [a["cms_b"]], dict(threshold=a["threshold"])))
+        return (interp.call(f, [a["cms_a"]], dict(kw)), interp.call(f, [a["cms_b"]], dict(kw)))
+
+    def real_call(self, ra):
+        from sleap_nn.inference import peak_finding as pf
+
+        name, kw = self._kw(ra)
+        kw = {k: (float(v) if k == "threshold" else (int(v) if k == "integral_patch_size" else v)) for k, v in kw.items()}
+        return (getattr(pf, name)(ra["cms_a"], **kw), getattr(pf, name)(ra["cms_b"], **kw))
+
+    def ensures(self, c, result, cms_a, cms_b, b, threshold, which, patch=5):
+        (p1, v1), (p2, v2) = result
+        S = cms_a.shape[0]
+
+        def cols(name, t1, t2):
+            if not (isinstance(t1, STensor) and isinstance(t2, STensor) and t1.rank == t2.rank and t1.rank >= 2):
+                return [(name + "/same-kind", False)]
+            r1, r2 = t1.reader(), t2.reader()
+            tail = list(t1.shape[2:])
+            return [(name + "/equal", Forall([S] + tail, lambda s, *ix: V.f_same(r1([s, 0] + list(ix)), r2([s, b] + list(ix)))))]
+
+        if which == "integral" and c.symbolic and getattr(self, "_rough", None):
+            (rp1, rv1), (rp2, rv2) = self._rough
+            for nm, cl in cols("step/rough-peak-points-do-not-depend-on-the-other-channels", rp1, rp2) + cols("step/rough-peak-values-do-not-depend-on-the-other-channels", rv1, rv2):
+                c.lemma(nm, cl, then=cl, level="helper")
+        return cols("PL/peak-point-of-a-channel-does-not-depend-on-the-other-channels", p1, p2) + cols("PL/peak-value-of-a-channel-does-not-depend-on-the-other-channels", v1, v2)
+
+
+def _centroid_crop_clauses(c, result, ks, points, values, eff, input_scale, stride, max_instances):
+    """return_crops=True: one dict per frame WITH detections, in frame order; each carries the
+    frame / video index and eff_scale of ITS OWN frame (repeated per crop) and that frame's
+    centroid values."""
+    have = [b for b in range(2) if ks[b] > 0]
+    if not (isinstance(result, list) and len(result) == len(have) and all(isinstance(x, dict) for x in result)):
+        return [("PL/one-crop-dict-per-frame-with-detections", False)]
+    cl = [("PL/one-crop-dict-per-frame-with-detections", True)]
+    sr, er = values.reader(), eff.reader()
+    start = [0, ks[0]]
+    M = max_instances if max_instances is not None else max(ks)
+    for ex, b in zip(result, have):
+        n = min(M, ks[b])
+        fi, vi, es, cv_ = ex.get("frame_idx"), ex.get("video_idx"), ex.get("eff_scale"), ex.get("centroid_val")
+        ok = all(isinstance(t, STensor) for t in (fi, vi, es, cv_)) and list(fi.shape) == [n] and list(vi.shape) == [n] and list(es.shape) == [n] and list(cv_.shape) == [n]
+        cl.append(("PL/frame%d/one-row-per-kept-centroid" % b, ok))
+        if not ok:
+            continue
+        fr, vr, esr, cvr = fi.reader(), vi.reader(), es.reader(), cv_.reader()
+        mine = list(range(start[b], start[b] + ks[b]))
+        rows = []
+        for r in range(n):
+            rows.append(V.b_and(V.f_eq(T.cast_scalar(fr([r]), FLOAT), float(70 + b)), V.f_eq(T.cast_scalar(vr([r]), FLOAT), float(5 + b)), V.f_same(esr([r]), er([b])),
+                                V.b_or(*[V.f_same(cvr([r]), sr([q])) for q in mine])))
+        cl.append(("PL/frame%d/crops-carry-the-frame-index-video-index-eff_scale-and-centroid-values-of-their-own-frame" % b, V.b_and(*rows)))
+    return cl
